@@ -8,25 +8,39 @@ d=$1; prop=${2:-all}
 n=$(basename $d .diff)
 export GOFLAGS=-mod=mod GOPROXY=off GOSUMDB=off GOTOOLCHAIN=local
 BIN=/verif/bin/maddyverif
-for base in $(git -C /repo log --format=%h -12); do
+ok=""
+for base in $(git -C /repo log --format=%h -14); do
   wt=/tmp/rb_$n.$$
   flock /tmp/.verif_wt.lock git -C /repo worktree add -q --detach $wt $base || exit 2
-  if git -C $wt apply --check $d 2>/dev/null; then break; fi
-  flock /tmp/.verif_wt.lock git -C /repo worktree remove --force $wt; wt=""
+  if ! git -C $wt apply --check $d 2>/dev/null; then
+    flock /tmp/.verif_wt.lock git -C /repo worktree remove --force $wt; continue
+  fi
+  ref=/tmp/refbase_$base; mkdir -p $ref/evidence
+  # the reference of a base is generated once (under a lock: several variants may want the same base at the same time)
+  (
+    flock 9
+    if [ ! -f $ref/baseline.txt ]; then
+      cp /verif/known_findings.json $ref/
+      VERIF_ANCHORS_OUT=$ref/anchors_index.json $BIN -repo $wt -verif $ref -property ANCHORS >/dev/null 2>&1
+      VERIF_ANCHORS_IN=$ref/anchors_index.json VERIF_KEPT_OUT=$ref/mustpass_index.json $BIN -repo $wt -verif $ref -property KEPT >/dev/null 2>&1
+      VERIF_ANCHORS_IN=$ref/anchors_index.json VERIF_KEPT_IN=$ref/mustpass_index.json $BIN -repo $wt -verif $ref -property all 2>&1 | grep -E ': C[0-9]+\.|floor' | sed -E 's/^[^ ]+ (C[0-9]+\.[A-Za-z0-9]+ [^ ]+).*/\1/' | sort -u > $ref/baseline.tmp
+      mv $ref/baseline.tmp $ref/baseline.txt
+    fi
+  ) 9>$ref/.lock
+  git -C $wt apply $d || exit 2
+  vd=/tmp/rbv_$n.$$; mkdir -p $vd/evidence; cp /verif/known_findings.json $vd/
+  out=$(VERIF_ANCHORS_IN=$ref/anchors_index.json VERIF_KEPT_IN=$ref/mustpass_index.json $BIN -repo $wt -verif $vd -property $prop 2>&1)
+  flock /tmp/.verif_wt.lock git -C /repo worktree remove --force $wt; rm -rf $vd
+  # a variant that applies textually but no longer type-checks on this base (a later fix: commit uses a name the
+  # variant renames) is tried on the next older base
+  if echo "$out" | grep -q '\.load load:'; then continue; fi
+  ok=1
+  echo "$out" | grep -E ': C[0-9]+\.|floor' | grep -v "KNOWN-FINDING" | sed "s#$wt/##g" | while IFS= read -r line; do
+    k=$(echo "$line" | sed -E 's/^[^ ]+ (C[0-9]+\.[A-Za-z0-9]+ [^ ]+).*/\1/')
+    grep -qxF "$k" $ref/baseline.txt || echo "$line" | cut -c1-${3:-400}
+  done
+  echo "($n analysed on base $base)"
+  break
 done
-[ -z "$wt" ] && { echo "$n: applies to none of the last 12 commits"; exit 2; }
-ref=/tmp/refbase_$base; mkdir -p $ref/evidence
-if [ ! -f $ref/baseline.txt ]; then
-  cp /verif/known_findings.json $ref/
-  VERIF_ANCHORS_OUT=$ref/anchors_index.json $BIN -repo $wt -verif $ref -property ANCHORS >/dev/null 2>&1
-  VERIF_ANCHORS_IN=$ref/anchors_index.json VERIF_KEPT_OUT=$ref/mustpass_index.json $BIN -repo $wt -verif $ref -property KEPT >/dev/null 2>&1
-  VERIF_ANCHORS_IN=$ref/anchors_index.json VERIF_KEPT_IN=$ref/mustpass_index.json $BIN -repo $wt -verif $ref -property all 2>&1 | grep -E ': C[0-9]+\.|floor' | sed -E 's/^[^ ]+ (C[0-9]+\.[A-Za-z0-9]+ [^ ]+).*/\1/' | sort -u > $ref/baseline.txt
-fi
-git -C $wt apply $d || exit 2
-vd=/tmp/rbv_$n.$$; mkdir -p $vd/evidence; cp /verif/known_findings.json $vd/
-VERIF_ANCHORS_IN=$ref/anchors_index.json VERIF_KEPT_IN=$ref/mustpass_index.json $BIN -repo $wt -verif $vd -property $prop 2>&1 | grep -E ': C[0-9]+\.|floor' | grep -v "KNOWN-FINDING" | sed "s#$wt/##g" | while IFS= read -r line; do
-  k=$(echo "$line" | sed -E 's/^[^ ]+ (C[0-9]+\.[A-Za-z0-9]+ [^ ]+).*/\1/')
-  grep -qxF "$k" $ref/baseline.txt || echo "$line" | cut -c1-${3:-400}
-done
-echo "($n analysed on base $base)"
-flock /tmp/.verif_wt.lock git -C /repo worktree remove --force $wt; rm -rf $vd
+[ -z "$ok" ] && { echo "$n: applies to none of the last 14 commits (or does not type-check on any)"; exit 2; }
+exit 0
